@@ -221,6 +221,10 @@ def astype(a, dtype, **k):
             flat = [(ctx.concretize_int(e.trunc().t) if isinstance(e, SR) else int(e)) for e in rnp.asarray(a, dtype=object).reshape(-1)]
             return rnp.array(flat, dtype=rnp.int64).reshape(rnp.shape(a))
         return _map(lambda e: e.trunc() if isinstance(e, SR) else (int(e) if is_num(e) else e), a)
+    if any(isinstance(e, SB) for e in rnp.asarray(a, dtype=object).flat):
+        # boolean mask cast to a number type: True -> 1, False -> 0
+        one, zero = (SC(1, 0), SC(0, 0)) if _iscomplex(dtype) else (SR(z3.RealVal(1)), SR(z3.RealVal(0)))
+        return _map(lambda e: ite(e, one, zero) if isinstance(e, SB) else e, a)
     out = rnp.array(a, dtype=object, copy=True).view(SymNd)
     return out
 
